@@ -419,6 +419,9 @@ type merged struct {
 	samples      []json.RawMessage
 	violations   []Violation
 	inconclusive []string
+	// statement coverage of the repository's own functions reached by this run (only when the
+	// engine was built with -cover and GOCOVERDIR is set)
+	anchorCoverage map[string]any
 }
 
 func (m *merged) add(o *workerOut) {
@@ -611,6 +614,7 @@ func driverMain(propID, tier string) int {
 		exit = 2
 	}
 
+	m.anchorCoverage = collectCoverage(propID)
 	writeEvidence(p, tier, seed, m, nViol, time.Since(start).Seconds(), nw)
 	keys := make([]string, 0, len(m.counters))
 	for k := range m.counters {
@@ -750,6 +754,9 @@ func writeEvidence(p *Prop, tier string, seed uint64, m *merged, nViol int, wall
 	if m.samples == nil {
 		cov["samples"] = []any{}
 	}
+	if m.anchorCoverage != nil {
+		cov["anchor_coverage"] = m.anchorCoverage
+	}
 	if m.counters["exhaustive_spaces_completed"] > 0 {
 		cov["exhaustive_subspaces"] = m.counters["exhaustive_spaces_completed"]
 	}
@@ -871,4 +878,80 @@ func scanRaceLogs(prefix, propID string, m *merged) {
 		}
 	}
 	m.counters["race_log_files_scanned"] += int64(len(files))
+}
+
+// collectCoverage summarises `go tool covdata func` over GOCOVERDIR for the repository's
+// hand-written packages: per file, the functions reached and the statement coverage of each.
+func collectCoverage(propID string) map[string]any {
+	dir := os.Getenv("GOCOVERDIR")
+	if dir == "" {
+		return nil
+	}
+	// restrict to the files the property is anchored in
+	anchors := map[string]bool{}
+	if b, err := os.ReadFile(filepath.Join(os.Getenv("VERIF_HOME"), "properties.jsonl")); err == nil {
+		for _, l := range strings.Split(string(b), "\n") {
+			var pr struct {
+				ID      string `json:"id"`
+				Anchors struct {
+					Files []string `json:"files"`
+				} `json:"anchors"`
+			}
+			if json.Unmarshal([]byte(l), &pr) == nil && pr.ID == propID {
+				for _, f := range pr.Anchors.Files {
+					anchors[f] = true
+				}
+			}
+		}
+	}
+	out, err := exec.Command("go", "tool", "covdata", "func", "-i="+dir).Output()
+	if err != nil {
+		return map[string]any{"error": err.Error()}
+	}
+	type fileCov struct {
+		Functions   int      `json:"functions"`
+		Reached     int      `json:"functions_reached"`
+		NotReached  []string `json:"functions_not_reached,omitempty"`
+		MeanPercent float64  `json:"mean_statement_coverage_percent"`
+		sum         float64
+	}
+	files := map[string]*fileCov{}
+	for _, l := range strings.Split(string(out), "\n") {
+		f := strings.Fields(l)
+		if len(f) != 3 || !strings.HasPrefix(f[0], "github.com/formancehq/numscript/") {
+			continue
+		}
+		if strings.Contains(f[0], "verifharness") || strings.Contains(f[0], "/parser/antlr/") || strings.Contains(f[0], "/lsp/bindings.go") {
+			continue
+		}
+		path := strings.TrimPrefix(f[0], "github.com/formancehq/numscript/")
+		if i := strings.Index(path, ":"); i > 0 {
+			path = path[:i]
+		}
+		if len(anchors) > 0 && !anchors[path] {
+			continue
+		}
+		pct, err := strconv.ParseFloat(strings.TrimSuffix(f[2], "%"), 64)
+		if err != nil {
+			continue
+		}
+		fc := files[path]
+		if fc == nil {
+			fc = &fileCov{}
+			files[path] = fc
+		}
+		fc.Functions++
+		fc.sum += pct
+		if pct > 0 {
+			fc.Reached++
+		} else {
+			fc.NotReached = append(fc.NotReached, f[1])
+		}
+	}
+	res := map[string]any{}
+	for k, v := range files {
+		v.MeanPercent = float64(int(v.sum/float64(v.Functions)*10)) / 10
+		res[k] = v
+	}
+	return res
 }
